@@ -57,6 +57,7 @@ package encrypt
 
 // FilterOperationOverrides is configuration: no library code writes it after construction (reads need no lock)
 //@ type Filter guarded_by l: Wrapper, HmacSalt, HmacInfo
+//@ type Filter immutable FilterOperationOverrides, IgnoreTypes
 
 //@ iface wrapping.Wrapper.Encrypt(ctx, data, opt) (blob, err)
 //@   assigns ctxdone
@@ -226,6 +227,7 @@ package encrypt
 //@   cut before reflect.ValueOf@1 C10/nothing-is-mutated-before-the-copy: held(ef.l) == 0 && e != nil && e == entry(e) && events("reflect:set") == old(events("reflect:set")) && events("sys:psset") == old(events("sys:psset")) && events("sys:deepcopy") == old(events("sys:deepcopy")) && callsTo("(*trackedMaps).processUnfiltered") == old(callsTo("(*trackedMaps).processUnfiltered")) && old(e.Payload != nil && !nothingFiltered(ef.FilterOperationOverrides) && !tagImplements(tagof(e.Payload), "RotateWrapper")) && unchanged("eventlogger.Event.Payload")
 //@   cut before reflect.ValueOf@1 C09/a-needed-wrapper-was-checked-before-the-copy: old(ef.Wrapper == nil && !tagImplements(tagof(e.Payload), "EventWrapperInfo")) ==> !old(needsKey(effOp(ef.FilterOperationOverrides, PublicClassification))) && !old(needsKey(effOp(ef.FilterOperationOverrides, SensitiveClassification))) && !old(needsKey(effOp(ef.FilterOperationOverrides, SecretClassification)))
 //@   atcall copystructure.Copy#1 C10/the-whole-event-is-copied-not-a-part-of-it: valof(callarg(0)) == e && e == entry(e) && tagof(callarg(0)) == typeid("*eventlogger.Event")
+//@   atcall copystructure.Copy#1 C19/the-shared-event-is-not-read-while-another-pipeline-may-format-it: held(e.l) >= 1
 //@   atcall NewEventWrapper#1 C16+C19/the-base-wrapper-is-read-under-the-filter-lock: held(ef.l) >= 1
 //@   atcall (*Filter).filterValue@1 C09/an-unsettable-string-payload-is-refused: ufbool("reflect.CanSet", payloadValue)
 //@   atcall (*Filter).filterValue@1 C10/the-walk-is-rooted-at-the-private-copy: e != entry(e) && fresh(e) && (payloadValue == payloadValueOf(e) || payloadValue == uf("reflect.Elem", payloadValueOf(e)))
